@@ -4,9 +4,18 @@
 
   `Good`     : every cache entry equals the function it memoises for the class that reads it, every
                implicit-wrapper registry entry was put there for the class it checks, every installed
-               serializer is the one a fresh `create_serializer` would build  ("CacheCoherent").
-  `Sim`      : the full run and the sliced run agree on the stable part (what `StructMeta.__new__`
-               fixed, and `_required`) of every class in `T`, on the flags, and are both `Good`.
+               serializer binds the keys a fresh `create_serializer` would bind and exists only for a class
+               whose serializer can be generated  ("CacheCoherent").
+  `Entry.stable` / `lookS` : what the behaviour of classes depends on under coherence — the definition-time core,
+               `_required`, and the CONFIGURATION (flags) of the class's serializer.
+  `Pres`     : a use (anything but `define`, a default toggle, an explicit `create_serializer`) keeps `Good`, every
+               stable part and the flags — proved through the nested cache fills and the nested serializer
+               generation by induction on their fuel (`pres_fillMapperDeep`, `pres_fillSimplicityDeep`, `createW_spec`).
+  `Created`  : what an explicit `create_serializer(c, fl)` leaves: every other class untouched, `c` with the flags `fl`
+               iff it got through; inside the region `refsCreatable` success is the static `fastAble` (`createW_snd`).
+  `Sim`      : the full run and the sliced run agree on the stable part of every class in `T`, on the flags, are both
+               `Good`, stay inside the region (`wf`) and `T` contains what the fields of its classes refer to (`tcl`);
+               `sim_run` threads the set `K` of classes whose serializer configuration the slice keeps (`sliceK`).
 -/
 import TypedpyModel.Sem.World
 set_option linter.unusedSimpArgs false
